@@ -11,14 +11,14 @@ SPEC = dict(
                "`wtf pipeline`) are compared on repeated calls and fresh loads as well. A third of the databases are a main file plus a notebook that "
                "repeats some of its entries word for word; one per run has a vocabulary of more than 100,000 distinct words. Further kinds: a database assembled "
                "in code from plain entries (every legacy entry point also as the very first call on a new instance) and a long-lived object that held other "
-               "content of the same size, answered suggestions and searches, and was then given this content (must answer like a plain load).",
+               "content of the same size, answered suggestions and searches, and was then given this content (must answer like a plain load). The binary is also run eight times per request from inside working directories that are several kinds of project at once (their boost tables may disagree), against the shipped database, with requests that name the words such tables hold.",
     level_note="Samples map orders, cannot enumerate them; an order dependence that needs a specific large-map layout could be missed.",
     engines=[dict(name="determinism", shards=T(16, 16), timeout=T(900, 3600), needs_wtf=True)],
     rule="case = (database, query, options); non-trivial = the full answer (limit N+1) contains a group of >=2 entries with equal scores "
          "or such a group straddles the limit in force (only those can expose chance ordering); distinct by (db, query, options). "
          "On databases of more than 2000 entries up to three requests are repeated for a second and a half each while the process is starved of processor time (one processor "
          "shared with two dozen busy goroutines: each preemption costs the search a quarter of a second): every answer must be the answer of the idle process.",
-    floors=T({"calls-under-a-starved-scheduler": 150, "calls-under-a-starved-scheduler-that-took-over-200ms": 20, "nontrivial-tie": 300, "tie-straddles-limit": 50, "nonempty": 500, "nonempty-SearchWithNLP": 200, "suggestions-nonempty": 20, "cli-triples": 10, "distinct_nontrivial": 300, "db-over-2048": 3, "db-over-4096": 3, "db-kind-notebook": 10, "db-kind-plain-literal": 8, "db-kind-replaced": 8, "first-call-on-a-new-instance-compared": 150, "db-huge-vocabulary": 1},
-             {"calls-under-a-starved-scheduler": 1000, "calls-under-a-starved-scheduler-that-took-over-200ms": 100, "nontrivial-tie": 3000, "tie-straddles-limit": 500, "nonempty": 5000, "nonempty-SearchWithNLP": 2000, "suggestions-nonempty": 200, "cli-triples": 100, "distinct_nontrivial": 3000, "db-over-2048": 30, "db-over-4096": 30, "db-kind-notebook": 100, "db-kind-plain-literal": 80, "db-kind-replaced": 80, "first-call-on-a-new-instance-compared": 1500, "db-huge-vocabulary": 8}),
+    floors=T({"cli-runs-repeated-inside-a-project-of-several-kinds": 30, "calls-under-a-starved-scheduler": 150, "calls-under-a-starved-scheduler-that-took-over-200ms": 20, "nontrivial-tie": 300, "tie-straddles-limit": 50, "nonempty": 500, "nonempty-SearchWithNLP": 200, "suggestions-nonempty": 20, "cli-triples": 10, "distinct_nontrivial": 300, "db-over-2048": 3, "db-over-4096": 3, "db-kind-notebook": 10, "db-kind-plain-literal": 8, "db-kind-replaced": 8, "first-call-on-a-new-instance-compared": 150, "db-huge-vocabulary": 1},
+             {"cli-runs-repeated-inside-a-project-of-several-kinds": 300, "calls-under-a-starved-scheduler": 1000, "calls-under-a-starved-scheduler-that-took-over-200ms": 100, "nontrivial-tie": 3000, "tie-straddles-limit": 500, "nonempty": 5000, "nonempty-SearchWithNLP": 2000, "suggestions-nonempty": 200, "cli-triples": 100, "distinct_nontrivial": 3000, "db-over-2048": 30, "db-over-4096": 30, "db-kind-notebook": 100, "db-kind-plain-literal": 80, "db-kind-replaced": 80, "first-call-on-a-new-instance-compared": 1500, "db-huge-vocabulary": 8}),
     assumptions=["same database content = same YAML file; entries are identified by their index in the loaded list"],
 )
